@@ -1,6 +1,7 @@
 import GqlProofs.PlanReach
 import GqlProofs.PlanSerial2
 import GqlProofs.PlanDefer6
+import GqlProofs.PlanFuel4
 import GqlProofs.ExecExample
 /-! # C01 — the refinement: what plan.go does (model M, `GqlModel/Plan.lean`) is what the algorithm prescribes (S, `GqlModel/Exec.lean`)
 
@@ -197,21 +198,135 @@ theorem plan_exec_eq_spec_partial (s : Schema) (doc : Document) (opName : String
       (∀ fs pfs, d = some fs → md = some pfs → PVal.fieldsToJ? pfs = some fs) :=
   run_data_eq_execute s doc opName inputs w fuel rank hac d errs log hS hM
 
-/- FULL statement of C01's refinement (`plan_exec_eq_spec`), NOT a theorem on the pinned tree:
+/-- **plan_exec_eq_spec_effects** (the refinement WITH deferred values — errors and resolver invocations). Same premises as
+`plan_exec_eq_spec_partial` (every world; outside D-04c: `kf = []`; `Acyclic`; M not out of fuel). `errs`, `log` are the
+algorithm's errors and invocations, `merrs`, `calls mev` M's (= the library's, by the exact correspondence), all in order of
+recording; the flag of an error / the field `deferred` of an invocation says "recorded while a deferred value is forced".
+* OUTSIDE deferred values the two executions record the same errors and the same invocations (path, runtime parent type, field,
+  coerced arguments, source, number of merged nodes), in the SAME ORDER: equal lists.
+* INSIDE deferred values the algorithm's records are, up to a permutation, M's records PLUS some dropped ones (`dropE`, `dropL`):
+  M's deferred errors / invocations are a sub-multiset of the algorithm's. (The algorithm forces a deferred value where it meets
+  it; when a later failure nulls an ancestor of that position the library never forces it, and what the algorithm recorded inside
+  is dropped: `dropped_deferred_error_witness`. Equality of the multisets is therefore NOT a theorem.) -/
+theorem plan_exec_eq_spec_effects (s : Schema) (doc : Document) (opName : String) (inputs : Vars) (w : World) (fuel : Nat)
+    (rank : String → Nat) (hac : Acyclic doc.fragments rank)
+    (d : Option (List (String × JVal))) (errs : List (Path × Bool)) (log : List LogEntry)
+    (hS : execute s doc opName inputs w fuel = .result d errs log [])
+    (hM : run s doc opName inputs w fuel ≠ .fuelOut) :
+    ∃ md merrs mev, run s doc opName inputs w fuel = .result md merrs mev ∧
+      merrs.filter (fun e => !e.2) = errs.filter (fun e => !e.2) ∧
+      (calls mev).filter (fun e => !e.deferred) = log.filter (fun e => !e.deferred) ∧
+      ∃ dropE dropL, (errs.filter (fun e => e.2)).Perm (merrs.filter (fun e => e.2) ++ dropE) ∧
+        (log.filter (fun e => e.deferred)).Perm ((calls mev).filter (fun e => e.deferred) ++ dropL) :=
+  run_fx_execute s doc opName inputs w fuel rank hac d errs log hS hM
 
-     ∀ s doc opName inputs w fuel rank, Acyclic doc.fragments rank → run … ≠ .fuelOut →
-       SameResponse (execute s doc opName inputs w fuel) (run s doc opName inputs w fuel)
+/-- **plan_exec_eq_spec_outside_d04c**: data, errors and invocations in one statement — everything `execute` and `run` observe,
+with deferred values, outside the known finding. -/
+theorem plan_exec_eq_spec_outside_d04c (s : Schema) (doc : Document) (opName : String) (inputs : Vars) (w : World) (fuel : Nat)
+    (rank : String → Nat) (hac : Acyclic doc.fragments rank)
+    (d : Option (List (String × JVal))) (errs : List (Path × Bool)) (log : List LogEntry)
+    (hS : execute s doc opName inputs w fuel = .result d errs log [])
+    (hM : run s doc opName inputs w fuel ≠ .fuelOut) :
+    ∃ md merrs mev, run s doc opName inputs w fuel = .result md merrs mev ∧
+      (d = none ↔ md = none) ∧
+      (∀ fs pfs, d = some fs → md = some pfs → PVal.fieldsToJ? pfs = some fs) ∧
+      merrs.filter (fun e => !e.2) = errs.filter (fun e => !e.2) ∧
+      (calls mev).filter (fun e => !e.deferred) = log.filter (fun e => !e.deferred) ∧
+      (∃ dropE dropL, (errs.filter (fun e => e.2)).Perm (merrs.filter (fun e => e.2) ++ dropE) ∧
+        (log.filter (fun e => e.deferred)).Perm ((calls mev).filter (fun e => e.deferred) ++ dropL)) ∧
+      (∀ e ∈ merrs, e ∈ errs) ∧ (∀ e ∈ calls mev, e ∈ log) := by
+  obtain ⟨md, merrs, mev, h1, h2, h3⟩ := plan_exec_eq_spec_partial s doc opName inputs w fuel rank hac d errs log hS hM
+  obtain ⟨md', merrs', mev', h1', h4, h5, dropE, dropL, h6, h7⟩ :=
+    plan_exec_eq_spec_effects s doc opName inputs w fuel rank hac d errs log hS hM
+  rw [h1] at h1'
+  simp only [MResponse.result.injEq] at h1'
+  obtain ⟨rfl, rfl, rfl⟩ := h1'
+  refine ⟨md, merrs, mev, h1, h2, h3, h4, h5, ⟨dropE, dropL, h6, h7⟩, ?_, ?_⟩
+  · intro e he
+    cases hf : e.2 with
+    | true =>
+      have : e ∈ merrs.filter (fun e => e.2) ++ dropE := List.mem_append_left _ (List.mem_filter.2 ⟨he, hf⟩)
+      exact (List.mem_filter.1 (h6.mem_iff.2 this)).1
+    | false =>
+      have : e ∈ merrs.filter (fun e => !e.2) := List.mem_filter.2 ⟨he, by simp [hf]⟩
+      rw [h4] at this
+      exact (List.mem_filter.1 this).1
+  · intro e he
+    cases hf : e.deferred with
+    | true =>
+      have : e ∈ (calls mev).filter (fun e => e.deferred) ++ dropL := List.mem_append_left _ (List.mem_filter.2 ⟨he, hf⟩)
+      exact (List.mem_filter.1 (h7.mem_iff.2 this)).1
+    | false =>
+      have : e ∈ (calls mev).filter (fun e => !e.deferred) := List.mem_filter.2 ⟨he, by simp [hf]⟩
+      rw [h5] at this
+      exact (List.mem_filter.1 this).1
 
-   where SameResponse = equal data and equal multisets of error paths. It fails
-   (a) on the known finding D-04c (a deferred value that fails, or yields null, under a NON-NULL type is forced after every recover
+/-- **force_never_out_of_fuel.** One call of a closure whose deferred value the algorithm forced (witness `Wit`) never runs out of
+the request's fuel; neither does phase one (part of `GenP`). -/
+theorem force_never_out_of_fuel (c : Ctx) (pv : Option Vars) (rank : String → Nat) (F : Nat) (hac : Acyclic c.frags rank)
+    (hfr : FragsOK c pv) (cl : Closure) (j : JVal) (hwit : Wit c pv rank F cl j) (mst : MSt) :
+    (force c (recompute c.schema c.frags pv) F cl mst).1 ≠ .fuelOut :=
+  force_no_fuelOut hac hfr cl j hwit mst
+
+/-- **site_loop_never_out_of_fuel.** The loop at a dethunk site (call the closure, and what it yields, until something that is no
+closure comes out; counter: the request's fuel + 2) never runs out on a closure whose deferred value the algorithm forced: the
+algorithm unwraps one level of nesting per unit of its fuel, so the nesting depth is at most the fuel + 1. -/
+theorem site_loop_never_out_of_fuel (c : Ctx) (pv : Option Vars) (rank : String → Nat) (F : Nat) (hac : Acyclic c.frags rank)
+    (hfr : FragsOK c pv) (cl : Closure) (j : JVal) (hwit : Wit c pv rank F cl j) (mst : MSt) :
+    (forceAll c (recompute c.schema c.frags pv) F cl mst).1 ≠ .fuelOut :=
+  forceAll_nf hac hfr cl j hwit mst
+
+/-- **plan_fuel_sufficient** (the fuel premise discharged). With deferred values, outside D-04c, acyclic fragment table: when the
+algorithm answers WITH DATA `fs` from fuel `fuelS`, M answers (is not `fuelOut`) from every fuel `F ≥ fuelS` with
+`F ≥ dethunkFuel fs = max (jdep (.obj fs)) (jcont (.obj fs) + 1)`, two measures of the RESPONSE: `jcont` = the number of maps and
+lists in it (the breadth-first queue of a query pops each once, plus the final empty pop), `jdep` = along the deepest path the sum
+of (entries + 2) per level (the depth-first recursion of a mutation). Tight for the queue: `fuel_bound_tight_witness`. Not covered:
+a MUTATION answering `data: null` — the values forced before the failing top-level field are not in the response, so no bound in
+terms of the response exists (M still only needs fuel ≥ their `jdep`). -/
+theorem plan_fuel_sufficient (s : Schema) (doc : Document) (opName : String) (inputs : Vars) (w : World) (fuelS : Nat)
+    (rank : String → Nat) (hac : Acyclic doc.fragments rank)
+    (fs : List (String × JVal)) (errs : List (Path × Bool)) (log : List LogEntry)
+    (hS : execute s doc opName inputs w fuelS = .result (some fs) errs log [])
+    (F : Nat) (h1 : fuelS ≤ F) (h2 : dethunkFuel fs ≤ F) : run s doc opName inputs w F ≠ .fuelOut :=
+  run_no_fuelOut s doc opName inputs w fuelS rank hac fs errs log hS F h1 h2
+
+/-- **plan_exec_eq_spec_fueled**: `plan_exec_eq_spec_outside_d04c` for a response with data, WITHOUT the premise on M's fuel: the
+algorithm answers from `fuelS`; M, run with any fuel `F` that covers `fuelS` and the response's `dethunkFuel`, answers with data
+that read as a JSON value IS the algorithm's, the same non-deferred errors and invocations in the same order, and deferred ones a
+sub-multiset. -/
+theorem plan_exec_eq_spec_fueled (s : Schema) (doc : Document) (opName : String) (inputs : Vars) (w : World) (fuelS : Nat)
+    (rank : String → Nat) (hac : Acyclic doc.fragments rank)
+    (fs : List (String × JVal)) (errs : List (Path × Bool)) (log : List LogEntry)
+    (hS : execute s doc opName inputs w fuelS = .result (some fs) errs log [])
+    (F : Nat) (h1 : fuelS ≤ F) (h2 : dethunkFuel fs ≤ F) :
+    ∃ pfs merrs mev, run s doc opName inputs w F = .result (some pfs) merrs mev ∧
+      PVal.fieldsToJ? pfs = some fs ∧
+      merrs.filter (fun e => !e.2) = errs.filter (fun e => !e.2) ∧
+      (calls mev).filter (fun e => !e.deferred) = log.filter (fun e => !e.deferred) ∧
+      (∃ dropE dropL, (errs.filter (fun e => e.2)).Perm (merrs.filter (fun e => e.2) ++ dropE) ∧
+        (log.filter (fun e => e.deferred)).Perm ((calls mev).filter (fun e => e.deferred) ++ dropL)) := by
+  have hM := plan_fuel_sufficient s doc opName inputs w fuelS rank hac fs errs log hS F h1 h2
+  obtain ⟨k, rfl⟩ := Nat.le.dest h1
+  have hS' := execute_fuel_add s doc opName inputs w fuelS _ hS (by simp) k
+  obtain ⟨md, merrs, mev, a1, a2, a3, a4, a5, a6, _, _⟩ :=
+    plan_exec_eq_spec_outside_d04c s doc opName inputs w (fuelS + k) rank hac (some fs) errs log hS' hM
+  cases md with
+  | none => exact absurd (a2.2 rfl) (by simp)
+  | some pfs => exact ⟨pfs, merrs, mev, a1, a3 fs pfs rfl rfl, a4, a5, a6⟩
+
+/- What is left of the design's `plan_exec_eq_spec` ("equal data, equal multisets of error paths, equal logs" for every request):
+   (a) the known finding D-04c (a deferred value that fails, or yields null, under a NON-NULL type is forced after every recover
        scope is gone: the failure reaches the request level): `d04c_negation_witness` is the kernel-checked counterexample; the
        decidable predicate of the class is `kfThunk ≠ []` of the algorithm's response;
-   (b) in the ERROR component even outside (a): the algorithm forces a deferred value where it meets it and records the
-       errors inside it, also when a LATER failure nulls an ancestor of that position; the library (and M) never force such a
-       value, so those errors are absent. What holds — and what the harness compares (`errDeferred`) — is: the errors recorded
-       outside deferred values coincide, and M's remaining errors are among the algorithm's deferred ones. Proved: the exact
-       statement on worlds without deferred values (`plan_exec_eq_spec_nothunk`: same error LIST) and the data statement above
-       (every world); the error statement with deferred values is NOT proved (needs effect accounting up to permutation). -/
+   (b) the DROPPED deferred effects: equality of the error multisets / of the logs is false (`dropped_deferred_error_witness`); what
+       holds is `plan_exec_eq_spec_effects`, and that is what the harness compares (`errDeferred` tolerance);
+   (c) fuel. `run … ≠ .fuelOut` cannot be had from `execute … ≠ .fuelOut` AT THE SAME FUEL VALUE (`fuel_is_not_shared_witness`):
+       M's breadth-first queue consumes one unit per container of the response (up to exponentially many in the algorithm's
+       recursion depth), the depth-first pass one per key and level. It IS had from a fuel that also covers the size of the
+       response: `plan_fuel_sufficient` / `plan_exec_eq_spec_fueled` (responses with data; for `data: null` the theorems with the
+       premise `run … ≠ .fuelOut` remain — a query needs no more than the algorithm's fuel there (`runPlan` returns phase one's
+       failure), a mutation needs the `jdep` of values that are not in the response). The driver runs M with fuel 100000 and
+       reports `fuelOut` as a check error, never as a response. -/
 
 /-! ### the negation witness for D-04c -/
 
@@ -260,6 +375,71 @@ theorem d04c_negation_witness :
     (match mData (run schema docKF "" [] worldKF) with | some none => true | _ => false) = true ∧
     mErrs (run schema docKF "" [] worldKF) = ["o.x"] ∧
     mEvents (run schema docKF "" [] worldKF) = ["call o", "call o.y", "call o.x", "force o.x"] := by
+  decide +kernel
+
+namespace Ex
+open GqlModel.Exec.Ex
+
+/-- object 1: `y : Int` (nullable) resolves to a deferred value that fails, `x : String!` fails outright -/
+def worldDrop : World :=
+  { objects := [(1, { typeName := "O", fields := [("x", .fail), ("y", .value (.thunk .err))] })],
+    rootFields := [("o", .value (.ref 1))], isTypeOf := [], resolveType := [] }
+
+/-- `Query { l : [O] }`, `O { l : [O], y : Int }` -/
+def schemaL : Schema :=
+  { types := [.scalar "Int" .int "",
+      .object "Query" [] [{ name := "l", type := .list (.named "O"), args := [] }] false "",
+      .object "O" [] [{ name := "l", type := .list (.named "O"), args := [] },
+                      { name := "y", type := .named "Int", args := [] }] false ""],
+    query := "Query", mutation := none, subscription := none, directives := [] }
+
+def four (v : GoVal) : GoVal := .list [v, v, v, v]
+
+/-- four objects each holding four objects: 26 containers in the response -/
+def worldL : World :=
+  { objects := [(1, { typeName := "O", fields := [("l", .value (four (.ref 2)))] }),
+                (2, { typeName := "O", fields := [("y", .value (.int 1))] })],
+    rootFields := [("l", .value (four (.ref 1)))], isTypeOf := [], resolveType := [] }
+
+/-- `{ l { l { y } } }` -/
+def docL : Document :=
+  { defs := [.operation .query none [] [] (.mk [fld "l" (some [fld "l" (some [fld "y"])])] Loc.none) Loc.none], loc := Loc.none }
+
+def isResult (r : Response) : Bool := match r with | .result _ _ _ _ => true | _ => false
+def mIsResult (r : MResponse) : Bool := match r with | .result _ _ _ => true | _ => false
+def mIsFuelOut (r : MResponse) : Bool := match r with | .fuelOut => true | _ => false
+
+end Ex
+
+open Ex GqlModel.Exec.Ex in
+/-- **dropped_deferred_error_witness** (why the deferred parts are related by "plus dropped ones", not by equality): `{ o { y x } }`,
+`y` a deferred value that fails under a nullable type, `x : String!` failing afterwards. The algorithm records `o.y` (deferred, in
+place) and `o.x`; the library — and M — null `o` on `o.x` and never force `y`: one error. No D-04c involved (`kfThunk = []`). -/
+theorem dropped_deferred_error_witness :
+    obsErrs (execute schema docKF "" [] worldDrop) = ["o.y", "o.x"] ∧
+    sKf (execute schema docKF "" [] worldDrop) = [] ∧
+    mErrs (run schema docKF "" [] worldDrop) = ["o.x"] ∧
+    mEvents (run schema docKF "" [] worldDrop) = ["call o", "call o.y", "call o.x"] ∧
+    (obsData (execute schema docKF "" [] worldDrop) == some [("o", JVal.null)]) = true ∧
+    (mData (run schema docKF "" [] worldDrop) == some (some [("o", JVal.null)])) = true := by
+  decide +kernel
+
+open Ex GqlModel.Exec.Ex in
+/-- **fuel_is_not_shared_witness** (why `run … ≠ .fuelOut` is a premise, or else a larger fuel): with fuel 19 the algorithm answers,
+M's breadth-first queue (26 containers) runs out; with fuel 27 both answer. -/
+theorem fuel_is_not_shared_witness :
+    isResult (execute schemaL docL "" [] worldL 19) = true ∧ mIsFuelOut (run schemaL docL "" [] worldL 19) = true ∧
+    isResult (execute schemaL docL "" [] worldL 26) = true ∧ mIsFuelOut (run schemaL docL "" [] worldL 26) = true ∧
+    mIsResult (run schemaL docL "" [] worldL 27) = true := by
+  decide +kernel
+
+open Ex GqlModel.Exec.Ex in
+/-- **fuel_bound_tight_witness**: on that request the bound of `plan_fuel_sufficient` is 27 — exactly the least fuel from which M
+answers (`fuel_is_not_shared_witness`: out of fuel at 26). -/
+theorem fuel_bound_tight_witness :
+    (match execute schemaL docL "" [] worldL 19 with
+     | .result (some fs) _ _ _ => dethunkFuel fs
+     | _ => 0) = 27 := by
   decide +kernel
 
 /-! ## 4. the catch points of deferred values; mutations force per top-level field -/
